@@ -347,6 +347,7 @@ func (e *c10Env) runAddr(l *addrLayout, m addrMode, base string, race *run.Build
 	if maxprocs > 0 {
 		env = append(env, fmt.Sprintf("GOMAXPROCS=%d", maxprocs), "GORACE=halt_on_error=0")
 	}
+	env = append(env, e.extraEnv...)
 	bin := e.env.bin
 	if race != nil {
 		bin = race
